@@ -30,6 +30,10 @@ RULE = ("per transport (mrp, companion, http, rtsp): every interleaving of 2 req
         "a request whose transmission raises (F: connection.send / transport.write / send processor) at every position "
         "of the 2-request scripts without device-originated message, randomly elsewhere; "
         "scripted listeners raise on their k-th call or always (plain, coroutine, bound method; the witness too); "
+        "a fifth transport `tunnel` = MRP over the AirPlay data stream (real DataStreamChannel.handle_received, "
+        "decode_protobufs, AirPlayMrpConnection) with 1..3 messages per data-stream frame; per transport 150 (thorough: "
+        "1500) PAIRS of protocol objects alive at once with the same identifiers in flight, their random scripts "
+        "interleaved at random, each judged on its own; "
         "MRP listener sets vary per script (the unfiltered witness on every type plus up to 5 subscriptions: several "
         "listeners per type, the same function / bound method / coroutine subscribed repeatedly for one type with "
         "disjoint filters, the same callable on several types); plus 400 (thorough: 4000) bare MessageDispatcher cases "
@@ -48,6 +52,8 @@ ASSUMPTIONS = [
     "answer; Companion: only a response frame (`_t`=3) can answer, an event or device request never does",
     "plain HTTP: the device answers the requests it received in order, each once; RTSP: only 2xx responses",
     "stop()/close() racing with waiters is outside the quantifier",
+    "tunnel: two messages for one identifier are never put into ONE data-stream frame (below event granularity); "
+    "HAP encryption of the data channel is bypassed (frames enter at channel.buffer / leave at channel.send)",
     "Companion responses that answer no outstanding request have no subscribers (only events can be listened "
     "to); they must merely not reach another caller",
 ]
@@ -58,10 +64,17 @@ TRUSTED = [
     "harness.core.vloop virtual-time loop",
 ]
 
-PROPS_FILES = ["PyatvModel/Props/C03.lean", "PyatvModel/Props/C03Rtsp.lean", "PyatvModel/Props/C03Disp.lean"]
+PROPS_FILES = ["PyatvModel/Props/C03.lean", "PyatvModel/Props/C03Rtsp.lean", "PyatvModel/Props/C03Disp.lean",
+               "PyatvModel/Props/C03Pair.lean"]
 KNOWN_SIG = "http-fifo:late-response-after-timeout"
 HTTP_WITNESS = "s,t0,s,rn:0"           # = PyatvModel.Props.C03.C03_http_counterexample
-TRANSPORTS = ["mrp", "companion", "http", "rtsp"]
+TRANSPORTS = ["mrp", "companion", "http", "rtsp", "tunnel"]
+
+
+def proto(transport):
+    """the tunnel is the MRP protocol on another connection class"""
+    return "mrp" if transport == "tunnel" else transport
+
 SETTLE = 50
 CUR = contextvars.ContextVar("c03_request", default=None)
 FAILED = 1000           # caller ids of requests whose transmission is made to raise
@@ -111,13 +124,14 @@ def model_tok(transport, e):
     pinned code does); MRP does not look at the message type"""
     if e[0] == "S":
         return "s"
-    if transport == "mrp" and e[0] in ("e", "o"):
+    if proto(transport) == "mrp" and e[0] in ("e", "o"):
         return tok(("r", e[1], e[2]))
     return tok(e)
 
 
 def model_line(transport, base, events):
     s = ",".join(model_tok(transport, e) for e in events) or "-"
+    transport = proto(transport)
     if transport == "mrp":
         return "keyed 1 1 0 %d %s" % (base, s)
     if transport == "companion":
@@ -140,13 +154,55 @@ def script_keys(base, events):
     return keys
 
 
+def frame_plan(events, sizes):
+    """tunnel: which consecutive message events travel in one data-stream frame.  `sizes` = wanted
+    frame sizes in order; a frame also ends at any other event and before a message carrying an
+    identifier already present in it (two messages for one identifier in ONE frame are below the
+    event granularity of the model).  Returns for every event the index of the last event of its
+    frame (None for non-messages)."""
+    sizes = list(sizes)
+    groups, cur, want = [], [], 0
+    for i, e in enumerate(events):
+        if e[0] in MSG:
+            if cur and len(cur) < want and (e[1] is None or all(events[j][1] != e[1] for j in cur)):
+                cur.append(i)
+            else:
+                if cur:
+                    groups.append(cur)
+                cur, want = [i], (sizes.pop(0) if sizes else 1)
+        elif cur:
+            groups.append(cur)
+            cur = []
+    if cur:
+        groups.append(cur)
+    last = [None] * len(events)
+    for g in groups:
+        for i in g:
+            last[i] = g[-1]
+    return last
+
+
+def regroup(events, steps, last):
+    """observations of a frame are made when its last message was handed over: give every
+    delivery / listener call back to the message (payload) it is about"""
+    steps = [list(s) for s in steps]
+    for i, l in enumerate(last):
+        if l is None or l == i or l >= len(steps):
+            continue
+        v = events[i][2]
+        mine = [t for t in steps[l] if t[0] in ("dlv", "dsp") and t[3] == v]
+        steps[l] = [t for t in steps[l] if t not in mine]
+        steps[i] += mine
+    return steps
+
+
 def resp(transport, base, i):
     """the device's answer to request i (keys: allocation order, no burns in structured scripts)"""
     return ("r", None if transport == "http" else base + i, i)
 
 
 def kinds(transport):
-    return {"mrp": ("r", "e"), "companion": ("r", "e", "o")}.get(transport, ("r",))
+    return {"mrp": ("r", "e"), "companion": ("r", "e", "o")}.get(proto(transport), ("r",))
 
 
 def uvariants(transport, base, n):
@@ -156,7 +212,7 @@ def uvariants(transport, base, n):
         return [("r", None)]
     own = [base + i for i in range(n)]
     out = [("r", k) for k in [None, base + 900] + own]
-    if transport == "mrp":          # the type is not looked at: collisions only
+    if proto(transport) == "mrp":          # the type is not looked at: collisions only
         out += [("e", k) for k in own]
     if transport == "companion":
         out += [("e", k) for k in [None, base + 900] + own] + [("o", k) for k in [None] + own[:1]]
@@ -190,7 +246,7 @@ def interleavings2(transport, base):
                     if sent != ans:
                         continue
             uvs = uvariants(transport, base, 2) if "u" in pos else [None]
-            resend = (False, True) if transport in ("mrp", "companion") else (False,)
+            resend = (False, True) if proto(transport) in ("mrp", "companion") else (False,)
             for uv in uvs:
                 for rs in resend:
                     if rs and uv is not None and uv != uvs[0]:
@@ -248,7 +304,7 @@ def structured(transport, base, n, rng):
                 evs, nsent = [], 0
                 for j in range(len(tail) + 1):
                     for _ in range(slots.count(j)):
-                        if nsent and transport in ("mrp", "companion") and rng.chance(0.3):
+                        if nsent and proto(transport) in ("mrp", "companion") and rng.chance(0.3):
                             evs.append(("S", rng.randrange(nsent)))
                         else:
                             evs.append(("s",))
@@ -312,7 +368,7 @@ def random_script(transport, base, rng, nmax=5, maxlen=18):
             break
         c = rng.choice(choices)
         if c == "s":
-            if keys and transport in ("mrp", "companion") and rng.chance(0.3):
+            if keys and proto(transport) in ("mrp", "companion") and rng.chance(0.3):
                 evs.append(("S", rng.randrange(len(keys))))   # same request object again
             else:
                 evs.append(("s",))
@@ -346,7 +402,7 @@ def random_script(transport, base, rng, nmax=5, maxlen=18):
                 k = base + 900 + uns        # never allocated
             elif sel == 2 and keys and kd != "r":
                 k = rng.choice(keys)        # collides with an outstanding / completed / abandoned request
-            elif transport == "mrp":
+            elif proto(transport) == "mrp":
                 k = base + 900 + uns
             else:
                 k = nkey + rng.randint(0, 1)  # not yet allocated (a later request may get it)
@@ -559,7 +615,7 @@ class MrpAdapter:
             def __str__(self):
                 return "verif"
 
-        self.prot = mp.MrpProtocol(Conn(), None, None, None)
+        self.prot = mp.MrpProtocol(self.make_connection(Conn), None, None, None)
         self.prot._state = mp.ProtocolState.READY
         self.types = [protobuf.GENERIC_MESSAGE, protobuf.SET_STATE_MESSAGE, protobuf.VOLUME_DID_CHANGE_MESSAGE]
         self.subs = parse_subs(subs)
@@ -572,6 +628,9 @@ class MrpAdapter:
             else:
                 self.prot.listen_to(self.types[ty], self.callables.get(lid),
                                     (lambda ff: lambda m: accepts(ff, adapter.payload(m)))(f))
+
+    def make_connection(self, conn_class):
+        return conn_class()
 
     def expected_listeners(self, k, v):
         return expected_calls(self.subs, self.type_of.get(v, 0), v)
@@ -607,12 +666,70 @@ class MrpAdapter:
     def burn(self):
         raise RuntimeError("no burn in MRP")
 
-    def recv(self, kind, k, v):
+    def build(self, kind, k, v):
         ti = MSG.index(kind)            # the message type; MRP matching does not look at it
         self.type_of[v] = ti
         msg = self.messages.create(self.types[ti], identifier=self.real(k))
         msg.uniqueIdentifier = str(v)
-        self.prot.message_received(msg, None)
+        return msg
+
+    def recv(self, kind, k, v):
+        self.prot.message_received(self.build(kind, k, v), None)
+
+
+class TunnelAdapter(MrpAdapter):
+    """MRP tunnelled over AirPlay: real DataStreamChannel.handle_received -> decode_protobufs ->
+    AirPlayMrpConnection.handle_protobuf -> MrpProtocol.message_received; the device may put
+    several MRP messages into one data-stream frame.  HAP encryption is bypassed: frames are put
+    into channel.buffer, outgoing frames are taken at channel.send."""
+
+    def make_connection(self, conn_class):
+        from pyatv.protocols.airplay import channels
+        from pyatv.protocols.airplay.mrp_connection import AirPlayMrpConnection
+
+        adapter = self
+        self.channels = channels
+        self.channel = channels.DataStreamChannel(32 * b"\x01", 32 * b"\x02")
+        self.channel.transport = FakeTransport(lambda data: None)
+        self.seqno = 1
+
+        def send(data):
+            message, _, _ = channels.DataStreamChannel.decode_message(data)
+            if message is None or not message.message_type.startswith(b"sync"):
+                return                      # replies to the device's own frames
+            payload = channels.DataStreamChannel.decode_payload(message.payload)
+            for pb in channels.DataStreamChannel.decode_protobufs(payload["params"]["data"]):
+                adapter.keys.append(pb.identifier)
+                if adapter.fail_next:
+                    adapter.fail_next = 0
+                    raise SendFault("data channel send raises")
+                adapter.obs.add("snt", adapter.nsent, adapter.mkey(pb.identifier))
+                adapter.nsent += 1
+
+        self.channel.send = send
+
+        class Session:
+            data_channel = self.channel
+
+        self.conn = AirPlayMrpConnection(Session())
+        self.conn.data_channel = self.channel      # = connect()
+        self.channel.listener = self.conn
+        self.pending = []
+        return self.conn
+
+    def recv(self, kind, k, v, last=True):
+        """queue the message; the frame goes to the channel with its last message"""
+        self.pending.append(self.build(kind, k, v))
+        if not last:
+            return
+        ch = self.channels
+        msgs, self.pending = self.pending, []
+        frame = ch.DataStreamChannel.encode_message(ch.DataStreamMessage(
+            b"sync" + 8 * b"\x00", b"comm", self.seqno, ch.DATA_HEADER_PADDING,
+            ch.DataStreamChannel.encode_payload({"params": {"data": ch.DataStreamChannel.encode_protobufs(msgs)}})))
+        self.seqno += 1
+        self.channel.buffer += frame
+        self.channel.handle_received()
 
 
 class CompanionAdapter:
@@ -748,7 +865,8 @@ class RtspAdapter:
         adapter = self
 
         def remaining():
-            return deadlines[CUR.get()] - asyncio.get_event_loop().time()
+            dl, r = CUR.get()       # the session the running caller belongs to
+            return dl[r] - asyncio.get_event_loop().time()
 
         class Conn(HttpConnection):
             async def send_and_receive(self, *a, **kw):
@@ -826,42 +944,51 @@ async def settle():
         await asyncio.sleep(0)
 
 
-async def run_script(transport, base, events, subs=DEFAULT_SUBS):
-    """Run one script on the real code; returns the per-event observations."""
-    loop = asyncio.get_event_loop()
-    t0 = loop.time()
-    obs = Obs()
-    deadlines, tdead = {}, []
-    seen = 0
-    for e in events:
-        if e[0] in SENDS:
-            seen += 1
-        if e[0] == "t":
-            d = t0 + 1000.0 * (len(tdead) + 1)
-            tdead.append(d)
-            if e[1] < seen:  # a timer exists only once the request was made
-                deadlines.setdefault(e[1], d)
-    nsend = sum(1 for e in events if e[0] in SENDS)
-    for r in range(nsend):
-        deadlines.setdefault(r, t0 + 1.0e7)
-    for i in range(sum(1 for e in events if e[0] == "F")):
-        deadlines[FAILED + i] = t0 + 1.0e7
+class Sess:
+    """one protocol / connection object of a transport running one script"""
 
-    obs.begin()
-    if transport == "mrp":
-        ad = MrpAdapter(obs, base, subs or DEFAULT_SUBS)
-    elif transport == "companion":
-        ad = CompanionAdapter(obs, base)
-    elif transport == "http":
-        ad = HttpAdapter(obs, base)
-    else:
-        ad = RtspAdapter(obs, base, deadlines)
-    obs.steps.clear()
+    def __init__(self, transport, base, events, subs, t0, tdead):
+        self.transport, self.events, self.tdead = transport, events, tdead
+        self.loop = asyncio.get_event_loop()
+        self.obs = obs = Obs()
+        self.deadlines = deadlines = {}
+        seen = ti = 0
+        for e in events:
+            if e[0] in SENDS:
+                seen += 1
+            if e[0] == "t":
+                if e[1] < seen:  # a timer exists only once the request was made
+                    deadlines.setdefault(e[1], tdead[ti])
+                ti += 1
+        for r in range(sum(1 for e in events if e[0] in SENDS)):
+            deadlines.setdefault(r, t0 + 1.0e7)
+        for i in range(sum(1 for e in events if e[0] == "F")):
+            deadlines[FAILED + i] = t0 + 1.0e7
+        obs.begin()
+        orig_subs = subs
+        subs, _, frames = (subs or "").partition("#")
+        if transport == "mrp":
+            ad = MrpAdapter(obs, base, subs or DEFAULT_SUBS)
+        elif transport == "tunnel":
+            ad = TunnelAdapter(obs, base, subs or DEFAULT_SUBS)
+        elif transport == "companion":
+            ad = CompanionAdapter(obs, base)
+        elif transport == "http":
+            ad = HttpAdapter(obs, base)
+        else:
+            ad = RtspAdapter(obs, base, deadlines)
+        if orig_subs and hasattr(ad, "subs_text"):
+            ad.subs_text = orig_subs
+        self.ad = ad
+        obs.steps.clear()
+        self.plan = frame_plan(events, [int(x) for x in frames.split(",")] if frames else [])
+        self.tasks, self.ftasks, self.ti = [], [], 0
 
-    async def caller(r, obj):
-        CUR.set(r)
+    async def caller(self, r, obj):
+        CUR.set((self.deadlines, r))
+        obs = self.obs
         try:
-            k, v = await ad.request(r, deadlines[r] - loop.time(), obj)
+            k, v = await self.ad.request(r, self.deadlines[r] - self.loop.time(), obj)
             obs.add("dlv", r, k, v)
         except asyncio.CancelledError:
             raise
@@ -870,11 +997,12 @@ async def run_script(transport, base, events, subs=DEFAULT_SUBS):
         except Exception as ex:  # observation, never a crash
             obs.add("err", r, type(ex).__name__)
 
-    async def failing_caller(fid):
+    async def failing_caller(self, fid):
         """a caller whose transmission raises; it is not one of the numbered requests"""
-        CUR.set(fid)
+        CUR.set((self.deadlines, fid))
+        obs = self.obs
         try:
-            k, v = await ad.request(fid, 1.0e7, None)
+            k, v = await self.ad.request(fid, 1.0e7, None)
             obs.add("fdlv", k, v)
         except asyncio.CancelledError:
             raise
@@ -883,42 +1011,85 @@ async def run_script(transport, base, events, subs=DEFAULT_SUBS):
         except Exception as ex:
             obs.add("ferr", type(ex).__name__)
 
-    tasks = []
-    ftasks = []
-    ti = 0
-    try:
-        for e in events:
-            obs.begin()
-            try:
-                if e[0] == "F":
-                    ad.fail_next = 1 + len(ftasks) % 2     # alternate the place of the fault
-                    ftasks.append(asyncio.ensure_future(failing_caller(FAILED + len(ftasks))))
-                elif e[0] in SENDS:
-                    obj = e[1] if e[0] == "S" and e[1] < len(tasks) else None
-                    tasks.append(asyncio.ensure_future(caller(len(tasks), obj)))
-                elif e[0] == "b":
-                    ad.burn()
-                elif e[0] in MSG:
-                    ad.recv(e[0], e[1], e[2])
-                else:
-                    d = tdead[ti]
-                    ti += 1
-                    await asyncio.sleep(d + 0.25 - loop.time())
-            except Exception as ex:
-                obs.add("raised", type(ex).__name__)
-            await settle()
-            ad.fail_next = 0
-        obs.begin()  # anything after the last settle goes to an extra (unchecked) slot
-    finally:
-        for t in tasks + ftasks:
-            t.cancel()
-        if tasks or ftasks:
-            await asyncio.gather(*(tasks + ftasks), return_exceptions=True)
+    async def step(self, ei):
+        e, ad, obs, tasks, ftasks = self.events[ei], self.ad, self.obs, self.tasks, self.ftasks
+        obs.begin()
+        try:
+            if e[0] == "F":
+                ad.fail_next = 1 + len(ftasks) % 2     # alternate the place of the fault
+                ftasks.append(asyncio.ensure_future(self.failing_caller(FAILED + len(ftasks))))
+            elif e[0] in SENDS:
+                obj = e[1] if e[0] == "S" and e[1] < len(tasks) else None
+                tasks.append(asyncio.ensure_future(self.caller(len(tasks), obj)))
+            elif e[0] == "b":
+                ad.burn()
+            elif e[0] in MSG and self.transport == "tunnel":
+                ad.recv(e[0], e[1], e[2], last=self.plan[ei] == ei)
+            elif e[0] in MSG:
+                ad.recv(e[0], e[1], e[2])
+            else:
+                d = self.tdead[self.ti]
+                self.ti += 1
+                await asyncio.sleep(d + 0.25 - self.loop.time())
+        except Exception as ex:
+            obs.add("raised", type(ex).__name__)
         await settle()
-        if hasattr(ad, "restore"):
-            ad.restore()
-    steps = obs.steps[:len(events)]
-    return steps, ad
+        ad.fail_next = 0
+
+    async def finish(self):
+        self.obs.begin()  # anything after the last settle goes to an extra (unchecked) slot
+        for t in self.tasks + self.ftasks:
+            t.cancel()
+        if self.tasks or self.ftasks:
+            await asyncio.gather(*(self.tasks + self.ftasks), return_exceptions=True)
+        await settle()
+        if hasattr(self.ad, "restore"):
+            self.ad.restore()
+
+    def result(self):
+        steps = self.obs.steps[:len(self.events)]
+        if self.transport == "tunnel":
+            steps = regroup(self.events, steps, self.plan)
+        return steps, self.ad
+
+
+async def run_script(transport, base, events, subs=DEFAULT_SUBS):
+    """Run one script on the real code; returns the per-event observations."""
+    t0 = asyncio.get_event_loop().time()
+    nt = sum(1 for e in events if e[0] == "t")
+    sess = Sess(transport, base, events, subs, t0, [t0 + 1000.0 * (k + 1) for k in range(nt)])
+    try:
+        for ei in range(len(events)):
+            await sess.step(ei)
+    finally:
+        await sess.finish()
+    return sess.result()
+
+
+async def run_pair(transport, base, info, subs):
+    """TWO protocol / connection objects of one transport alive at once, identical identifiers in
+    flight on each; their scripts interleaved as `order` says.  Each is observed separately."""
+    t0 = asyncio.get_event_loop().time()
+    scripts = {"A": info["a"], "B": info["b"]}
+    rank, tdead, pos = 0, {"A": [], "B": []}, {"A": 0, "B": 0}
+    for who in info["order"]:
+        if scripts[who][pos[who]][0] == "t":
+            rank += 1
+            tdead[who].append(t0 + 1000.0 * rank)
+        pos[who] += 1
+    sess = {}
+    try:
+        sess["A"] = Sess(transport, base, scripts["A"], subs[0], t0, tdead["A"])
+        sess["B"] = Sess(transport, base, scripts["B"], subs[1], t0, tdead["B"])
+        pos = {"A": 0, "B": 0}
+        for who in info["order"]:
+            await sess[who].step(pos[who])
+            pos[who] += 1
+    finally:
+        for who in ("B", "A"):
+            if who in sess:
+                await sess[who].finish()
+    return sess["A"].result() + sess["B"].result()
 
 
 def canon_step(ad, event, step):
@@ -967,7 +1138,7 @@ def oracle(transport, base, events, steps, ad, perm_script):
     """The property text evaluated on the observations of the real code.  Returns
     [(sig, what)].  Independent of the Lean model."""
     problems = []
-    keyed = transport in ("mrp", "companion", "rtsp")
+    keyed = proto(transport) in ("mrp", "companion", "rtsp")
     wire = {}          # request -> identifier seen on the wire
     outcome = {}       # request -> (step, token)
     recv_at = {}       # payload -> (step, kind, key)
@@ -990,7 +1161,7 @@ def oracle(transport, base, events, steps, ad, perm_script):
         response type); Companion only a response frame can answer — an event is not an answer"""
         if transport == "http":
             return v if v < 100 and kind == "r" else None
-        if kind != "r" and transport != "mrp":
+        if kind != "r" and proto(transport) != "mrp":
             return None
         return skeys.index(k) if k in skeys else None
 
@@ -1043,7 +1214,7 @@ def oracle(transport, base, events, steps, ad, perm_script):
             got = [t for t in step if t[0] == "dlv" and t[3] == v]
             lst = [t for t in step if t[0] == "dsp" and t[3] == v]
             if target is None:
-                if transport == "mrp" or (transport == "companion" and kind == "e"):
+                if proto(transport) == "mrp" or (transport == "companion" and kind == "e"):
                     want = sorted(ad.expected_listeners(k, v))
                     have = sorted(t[1] for t in lst)
                     if have != want:
@@ -1052,7 +1223,7 @@ def oracle(transport, base, events, steps, ad, perm_script):
                 if got:
                     pass  # already reported as misdelivery above
             else:
-                if transport in ("mrp", "companion", "http") and not any(t[1] == target for t in got):
+                if proto(transport) in ("mrp", "companion", "http") and not any(t[1] == target for t in got):
                     add("response-not-delivered", "message %s%s:%d answers waiting request %d but was not returned "
                         "to it (step: %s)" % (kind, k, v, target, step))
         if e[0] == "t":
@@ -1114,19 +1285,37 @@ def gen_cases(ctx):
         base = 0 if transport != "companion" else rng.fork("base", transport).randint(0, 65536)
         rs = rng.fork("subs", transport)
 
-        def subs():
-            # MRP: the listener set varies from script to script
-            return random_subs(rs) if transport == "mrp" else None
+        def subs(evs=()):
+            # MRP: the listener set varies from script to script; tunnel: 1..3 messages per frame
+            if proto(transport) != "mrp":
+                return None
+            text = random_subs(rs)
+            if transport == "tunnel":
+                text += "#" + ",".join(str(rs.randint(1, 3)) for e in evs if e[0] in MSG)
+            return text.rstrip("#")
 
-        for evs in interleavings2(transport, base):
-            cases.append((transport, base, evs, subs()))
+        for evs in (interleavings2(transport, base) if transport != "tunnel" or ctx.thorough else []):
+            cases.append((transport, base, evs, subs(evs)))
         for n in ([3, 4] if ctx.thorough else [3]):
             for evs in structured(transport, base, n, rng.fork("stagger", transport, n)):
-                cases.append((transport, base, evs, subs()))
+                cases.append((transport, base, evs, subs(evs)))
         r2 = rng.fork("random", transport)
-        for _ in range(ctx.scale(1000, 8000)):
+        for _ in range(ctx.scale(700, 8000)):
             b = 0 if transport != "companion" else r2.randint(0, 65536)
-            cases.append((transport, b, random_script(transport, b, r2), subs()))
+            evs = random_script(transport, b, r2)
+            cases.append((transport, b, evs, subs(evs)))
+    # two protocol objects of one transport alive at once, same identifiers in flight on both
+    for transport in TRANSPORTS:
+        rp = rng.fork("pair", transport)
+        for _ in range(ctx.scale(150, 1500)):
+            b = 0 if transport != "companion" else rp.randint(0, 65536)
+            ea = random_script(transport, b, rp, nmax=3, maxlen=8)
+            eb = list(ea) if rp.chance(0.3) else random_script(transport, b, rp, nmax=3, maxlen=8)
+            order = ["A"] * len(ea) + ["B"] * len(eb)
+            rp.shuffle(order)
+            sa = random_subs(rp) if proto(transport) == "mrp" else None
+            sb = random_subs(rp) if proto(transport) == "mrp" else None
+            cases.append(("pair", b, {"t": transport, "a": ea, "b": eb, "order": "".join(order)}, (sa, sb)))
     # the dispatcher alone: subscription sets x messages
     r3 = rng.fork("disp")
     for _ in range(ctx.scale(400, 4000)):
@@ -1151,6 +1340,13 @@ def execute(cases):
                 except Exception as ex:
                     calls = [["raised:" + type(ex).__name__]]
                 results.append((transport, base, evs, calls, subs))
+                continue
+            if transport == "pair":
+                try:
+                    sa, aa, sb, ab = await run_pair(evs["t"], base, evs, subs)
+                except Exception as ex:
+                    sa, aa, sb, ab = [[("raised", type(ex).__name__)]], None, [], None
+                results.append((transport, base, evs, (sa, aa, sb, ab), subs))
                 continue
             try:
                 steps, ad = await run_script(transport, base, evs, subs)
@@ -1181,7 +1377,16 @@ def disp_oracle(subs_text, msgs_text, calls):
 def run(ctx, only=None):
     cases = only if only is not None else gen_cases(ctx)
     results = execute(cases)
-    lines = [("disp %s %s" % (split_subs(r[4])[0], r[2])) if r[0] == "disp" else model_line(r[0], r[1], r[2]) for r in results]
+    lines, where = [], []
+    for r in results:
+        where.append(len(lines))
+        if r[0] == "disp":
+            lines.append("disp %s %s" % (split_subs(r[4])[0], r[2]))
+        elif r[0] == "pair":
+            lines.append(model_line(r[2]["t"], r[1], r[2]["a"]))
+            lines.append(model_line(r[2]["t"], r[1], r[2]["b"]))
+        else:
+            lines.append(model_line(r[0], r[1], r[2]))
     answers = ctx.lean(lines)
     reported = {}
 
@@ -1192,7 +1397,29 @@ def run(ctx, only=None):
         if n < 3:
             ctx.fail(sig, case, observed, "see property C03", what)
 
-    for res, ans in zip(results, answers):
+    def judge(transport, base, evs, steps, ad, ans, case, prefix=""):
+        """one protocol object: correspondence with the model + the oracle"""
+        if ad is None:
+            impl = [sorted(":".join(map(str, t)) for t in s) for s in steps]
+        else:
+            impl = [canon_step(ad, e, s) for e, s in zip(evs, steps)]
+        model = canon_model(ans, transport)
+        for s in impl:
+            for t in s:
+                ctx.note("obs:" + t.split(":")[0].split("#")[0])
+        shown = ";".join(",".join(s) or "-" for s in impl)
+        if impl != model:
+            ctx.disagree(case, shown, ans, where=prefix + transport + " per-event outputs")
+        ctx.validated()
+        if ad is None:
+            ctx.fail(prefix + transport + ":harness-could-not-run", case, impl, "script runs", "real code raised in setup")
+            return impl
+        for sig, what in oracle(transport, base, evs, steps, ad, is_perm_script(transport, base, evs)):
+            report(sig if sig == KNOWN_SIG else prefix + sig, case, shown, what)
+        return impl
+
+    for res, at in zip(results, where):
+        ans = answers[at]
         if res[0] == "disp":
             _t, _b, msgs, calls, subs = res
             case = {"transport": "disp", "base": 0, "script": msgs, "subs": subs}
@@ -1210,35 +1437,31 @@ def run(ctx, only=None):
             for sig, what in disp_oracle(subs, msgs, calls):
                 report(sig, case, impl, what)
             continue
+        if res[0] == "pair":
+            _t, base, info, (sa, aa, sb, ab), subs = res
+            case = {"transport": "pair", "of": info["t"], "base": base, "script": show(info["a"]),
+                    "script2": show(info["b"]), "order": info["order"], "subs": subs[0], "subs2": subs[1]}
+            ctx.note("transport:pair-" + info["t"])
+            ctx.case(["pair", info["t"], base, case["script"], case["script2"], info["order"], subs[0], subs[1]],
+                     "AB" in info["order"] and "BA" in info["order"], sample=case)
+            judge(info["t"], base, info["a"], sa, aa, answers[at], case, prefix="pair-")
+            if ab is not None or sb:
+                judge(info["t"], base, info["b"], sb, ab, answers[at + 1], case, prefix="pair-")
+            continue
         transport, base, evs, steps, ad = res
         script = show(evs)
         case = {"transport": transport, "base": base, "script": script}
-        if transport == "mrp" and ad is not None:
+        if proto(transport) == "mrp" and ad is not None:
             case["subs"] = ad.subs_text
         nreq = sum(1 for e in evs if e[0] in SENDS)
         ctx.note("transport:" + transport)
         ctx.note("requests:%d" % nreq)
         ctx.note("timeouts:%d" % min(3, sum(1 for e in evs if e[0] == "t")))
         ctx.note("len:%02d" % min(20, len(evs)))
-        if ad is None:
-            impl = [sorted(":".join(map(str, t)) for t in s) for s in steps]
-        else:
-            impl = [canon_step(ad, e, s) for e, s in zip(evs, steps)]
-        model = canon_model(ans, transport)
+        impl = judge(transport, base, evs, steps, ad, ans, case)
         outcomes = sorted(t for s in impl for t in s if not t.startswith("snt"))
         ctx.case([transport, base, script, case.get("subs")], nontrivial(evs),
                  sample=dict(case, observed=outcomes))
-        for s in impl:
-            for t in s:
-                ctx.note("obs:" + t.split(":")[0].split("#")[0])
-        if impl != model:
-            ctx.disagree(case, ";".join(",".join(s) or "-" for s in impl), ans, where=transport + " per-event outputs")
-        ctx.validated()
-        if ad is None:
-            ctx.fail(transport + ":harness-could-not-run", case, impl, "script runs", "real code raised in setup")
-            continue
-        for sig, what in oracle(transport, base, evs, steps, ad, is_perm_script(transport, base, evs)):
-            report(sig, case, ";".join(",".join(s) or "-" for s in impl), what)
 
 
 def widen(ctx):
@@ -1246,6 +1469,18 @@ def widen(ctx):
 
 
 def _rerun(case):
+    if case["transport"] == "pair":
+        info = {"t": case["of"], "a": parse(case["script"]), "b": parse(case["script2"]), "order": case["order"]}
+        res = execute([("pair", case["base"], info, (case.get("subs"), case.get("subs2")))])
+        sa, aa, sb, ab = res[0][3]
+        probs = []
+        for evs, steps, ad in ((info["a"], sa, aa), (info["b"], sb, ab)):
+            if ad is None:
+                probs.append(("pair-%s:harness-could-not-run" % case["of"], "setup raised"))
+            else:
+                probs += [(sig if sig == KNOWN_SIG else "pair-" + sig, what) for sig, what in
+                          oracle(case["of"], case["base"], evs, steps, ad, False)]
+        return probs
     if case["transport"] == "disp":
         res = execute([("disp", 0, case["script"], case["subs"])])
         return disp_oracle(case["subs"], case["script"], res[0][3])
@@ -1265,6 +1500,8 @@ def shrink(ctx, failure):
     """greedy removal of events (dispatcher cases: messages, then subscriptions) while the same
     sig still fails on the real code"""
     case = dict(failure["case"])
+    if case["transport"] == "pair":
+        return failure
     disp = case["transport"] == "disp"
 
     def items(c, field):
